@@ -1409,11 +1409,50 @@ def m_as_ref_str(I, args, callee):
     return as_slice(I, a)
 
 
+def sort_key(I, v):
+    sg = key_sig(I, v)
+    if sg is None:
+        raise Unsupported('sort of symbolic elements')
+    return _flat(sg)
+
+
+def _flat(sg):
+    if isinstance(sg, tuple):
+        out = []
+        for x in sg:
+            f = _flat(x)
+            out.extend(f if isinstance(f, list) else [f])
+        return [x for x in out if not isinstance(x, str) and x is not None]
+    return sg
+
+
+def m_slice_sort(I, args, callee):
+    sl = as_slice(I, args[0])
+    lst, start, ln = I.elems_of(sl)
+    part = lst[start:start + ln]
+    part.sort(key=lambda v: sort_key(I, v))
+    lst[start:start + ln] = part
+    return UNIT
+
+
+def m_vec_dedup(I, args, callee):
+    v = I.deref(args[0])
+    out = []
+    for x in v.fields:
+        if out and truthy(I, val_eq(I, out[-1], x)):
+            continue
+        out.append(x)
+    v.fields[:] = out
+    return UNIT
+
+
 def m_path_display(I, args, callee):
     return Agg('Display', [as_slice(I, args[0])])
 
 
 MODELS = [
+    (r'^(core::)?slice::<impl \[.*\]>::sort(_unstable)?$', m_slice_sort),
+    (r'^Vec::<.*>::dedup$', m_vec_dedup),
     (r'^Path::display$|^PathBuf::display$', m_path_display),
     # panics
     (r'^std::rt::panic_fmt$|^core::panicking::panic_fmt$|^std::rt::begin_panic|^panic_fmt$', m_panic),
